@@ -23,10 +23,7 @@ def find_method(tree, cls, name):
     raise Refuse(f"{cls}.{name} not found")
 
 
-def generate(repo: Path) -> str:
-    sys.path.insert(0, str(repo))
-    src = (repo / "async_upnp_client" / "ssdp.py").read_text()
-    tree = ast.parse(src)
+def _caught_by_ast(tree):
     fn = find_method(tree, "SsdpProtocol", "datagram_received")
     tries = [n for n in ast.walk(fn) if isinstance(n, ast.Try)]
     if len(tries) != 1:
@@ -45,7 +42,6 @@ def generate(repo: Path) -> str:
             if not isinstance(n, ast.Name):
                 raise Refuse("handler class expression")
             caught.append(n.id)
-    # resolve the names in the module's own namespace
     mod = importlib.import_module("async_upnp_client.ssdp")
     classes = []
     for n in caught:
@@ -54,23 +50,112 @@ def generate(repo: Path) -> str:
             raise Refuse(f"cannot resolve exception class {n}")
         classes.append(c)
     from aiohttp.http_exceptions import InvalidHeader, LineTooLong
-    flags = {
+    return {
         "caught_invalid_header": any(issubclass(InvalidHeader, c) for c in classes),
         "caught_line_too_long": any(issubclass(LineTooLong, c) for c in classes),
         "caught_unicode_decode": any(issubclass(UnicodeDecodeError, c) for c in classes),
     }
+
+
+def _caught_by_probe():
+    """Shape not recognised: hand a datagram to a real SsdpProtocol whose decoder is replaced by one that raises each
+    of the three classes the decoder can raise, and see whether it escapes datagram_received."""
+    import asyncio
+    from unittest.mock import patch
+    from aiohttp.http_exceptions import InvalidHeader, LineTooLong
+    mod = importlib.import_module("async_upnp_client.ssdp")
+    loop = asyncio.new_event_loop()
+    try:
+        flags = {}
+        for key, exc in (("caught_invalid_header", InvalidHeader("x")), ("caught_line_too_long", LineTooLong("x", "1", "2")),
+                         ("caught_unicode_decode", UnicodeDecodeError("utf-8", b"\xff", 0, 1, "x"))):
+            def boom(*_a, _e=exc, **_k):
+                raise _e
+            seen = []
+            proto = mod.SsdpProtocol(loop, on_data=lambda *a: seen.append(a))
+
+            class _T:  # a transport stand-in: the protocol only looks at its socket
+                def get_extra_info(self, _name):
+                    return None
+            proto.connection_made(_T())
+            with patch.object(mod, "decode_ssdp_packet", boom), patch.object(mod, "is_valid_ssdp_packet", lambda _d: True):
+                try:
+                    proto.datagram_received(b"NOTIFY * HTTP/1.1\r\nA:b\r\n\r\n", ("192.0.2.1", 1900))
+                    flags[key] = not seen
+                except type(exc):
+                    flags[key] = False
+        return flags
+    finally:
+        loop.close()
+
+
+def _const(node, consts):
+    if isinstance(node, ast.Constant) and isinstance(node.value, int) and not isinstance(node.value, bool):
+        return node.value
+    if isinstance(node, ast.Name) and node.id in consts:
+        return consts[node.id]
+    if isinstance(node, ast.Attribute) and node.attr in consts:
+        return consts[node.attr]
+    return None
+
+
+def _mx_constants(stree):
+    """max(lo, min(hi, int(..))) and randrange(a, delay * b - c) / d anywhere in server.py, integer names resolved
+    through module- and class-level constants (so that extracting a helper or hoisting a constant changes nothing)"""
+    consts = {}
+    for n in ast.walk(stree):
+        if isinstance(n, ast.Assign) and len(n.targets) == 1 and isinstance(n.targets[0], ast.Name) \
+                and isinstance(n.value, ast.Constant) and isinstance(n.value.value, int) and not isinstance(n.value.value, bool):
+            consts[n.targets[0].id] = n.value.value
+        if isinstance(n, ast.AnnAssign) and isinstance(n.target, ast.Name) and isinstance(n.value, ast.Constant) \
+                and isinstance(n.value.value, int) and not isinstance(n.value.value, bool):
+            consts[n.target.id] = n.value.value
+    clamps, ranges = set(), set()
+    for n in ast.walk(stree):
+        if isinstance(n, ast.Call) and isinstance(n.func, ast.Name) and n.func.id == "max" and len(n.args) == 2:
+            for lo_n, inner in (n.args, n.args[::-1]):
+                if isinstance(inner, ast.Call) and isinstance(inner.func, ast.Name) and inner.func.id == "min" and len(inner.args) == 2:
+                    for hi_n, conv in (inner.args, inner.args[::-1]):
+                        # the clamped value: int(<header>) or a name bound to it
+                        if _const(conv, consts) is None and isinstance(conv, (ast.Call, ast.Name)):
+                            lo, hi = _const(lo_n, consts), _const(hi_n, consts)
+                            if lo is not None and hi is not None:
+                                clamps.add((lo, hi))
+        if isinstance(n, ast.BinOp) and isinstance(n.op, ast.Div) and isinstance(n.left, ast.Call) \
+                and ast.unparse(n.left.func).endswith("randrange") and len(n.left.args) == 2:
+            a = _const(n.left.args[0], consts)
+            hi = n.left.args[1]
+            d = _const(n.right, consts)
+            if isinstance(hi, ast.BinOp) and isinstance(hi.op, ast.Sub) and isinstance(hi.left, ast.BinOp) \
+                    and isinstance(hi.left.op, ast.Mult):
+                c = _const(hi.right, consts)
+                b = _const(hi.left.right, consts)
+                if b is None:
+                    b = _const(hi.left.left, consts)
+                if None not in (a, b, c, d):
+                    ranges.add((a, b, c, d))
+    if len(clamps) != 1:
+        raise Refuse(f"server: MX clamp max(lo, min(hi, int(..))) found {sorted(clamps)}")
+    if len(ranges) != 1:
+        raise Refuse(f"server: randrange(a, delay * b - c) / d found {sorted(ranges)}")
+    return clamps.pop(), ranges.pop()
+
+
+def generate(repo: Path) -> str:
+    sys.path.insert(0, str(repo))
+    for k in [k for k in sys.modules if k == "async_upnp_client" or k.startswith("async_upnp_client.")]:
+        del sys.modules[k]
+    src = (repo / "async_upnp_client" / "ssdp.py").read_text()
+    tree = ast.parse(src)
+    try:
+        flags = _caught_by_ast(tree)
+    except Refuse as e:
+        flags = _caught_by_probe()
+        print(f"translator:SsdpRecv: note: datagram_received: source shape not recognised ({e}); caught classes determined "
+              "by making the decoder raise each class inside a real SsdpProtocol")
     # server MX handling
-    ssrc = (repo / "async_upnp_client" / "server.py").read_text()
-    stree = ast.parse(ssrc)
-    od = ast.unparse(find_method(stree, "SsdpSearchResponder", "_on_data"))
-    m = re.search(r"delay = max\((\d+), min\((\d+), int\(mx_header\)\)\)", od)
-    if not m:
-        raise Refuse("server _on_data: MX clamp shape")
-    lo, hi = int(m.group(1)), int(m.group(2))
-    m2 = re.search(r"randrange\((\d+), delay \* (\d+) - (\d+)\) / (\d+)", od)
-    if not m2:
-        raise Refuse("server _on_data: randrange shape")
-    rr_lo, rr_mul, rr_sub, rr_div = map(int, m2.groups())
+    stree = ast.parse((repo / "async_upnp_client" / "server.py").read_text())
+    (lo, hi), (rr_lo, rr_mul, rr_sub, rr_div) = _mx_constants(stree)
     b = lambda x: "true" if x else "false"  # noqa: E731
     return "\n".join([
         "(* GENERATED by tools/gen/ssdprecv.py from ssdp.py / server.py — do not edit. *)",
